@@ -51,3 +51,12 @@ SPECS["C36"] = {
     "assumptions": ["contracts: str::{split_once::<char>,replace::<char>,contains::<char>,parse::<String>,to_string}, Option::{filter,map}, "
                     "Formatter::write_str, <String as Display>::fmt, Try/FromResidual/ResultExt::context"],
 }
+
+SPECS["C11"] = {
+    "parts": [{"engine": "m", "module": "c11"}],
+    "bounds": "to_multi_int::<T>: source variants U8/U16/I16/U32/I32/U64/I64 with 0, 1 and 2 symbolic full-width items x target types "
+              "u8..i64 (quick: 14 seed-rotated (source,target) pairs, thorough: all 49)",
+    "outside": "more than 2 items; textual sources (Str/Strs: std's integer parser); float conversions; extend_*/truncate (not yet encoded)",
+    "assumptions": ["contracts: SmallVec::{is_empty,deref}, slice::iter, Iterator::{map,collect::<Result<Vec<T>,E>>}, <T as NumCast>::from = range "
+                    "check + truncation (num-traits doc), Option::ok_or_else, opaque error constructors"],
+}
